@@ -91,6 +91,10 @@ def parse_inputbox(tokens, xopts):
 def create(current, tokens, sections, index):
     if current.start is None or current.endtitle is None:
         return False
+    if current.endtitle <= current.start:
+        # a heading end seen before this heading's start (a table start splits heading lines across
+        # token lists): no heading; using it would put the tokens in between into the tree twice
+        return False
     start_equal_count = tokens[current.start].text.count("=")
     end_equal_count = tokens[current.endtitle].text.count("=")
     level = min(start_equal_count, end_equal_count)
